@@ -64,13 +64,55 @@ def run_extract():
     if not os.path.isdir(src):
         return True, "no extractor"
     with Lock("extract"):
+        # the extractor's output is a function of the Go sources of the tree and of the extractor itself: when neither changed since
+        # the last run (and the generated files are still the ones it wrote) the last output IS the regenerated one
+        key = _extract_key(src)
+        keyfile = BUILD + "/extract.key"
+        outdir = LEAN + "/Relay/Extracted"
+        try:
+            last = json.load(open(keyfile))
+        except Exception:
+            last = {}
+        if last.get("in") == key and last.get("out") == _dir_hash(outdir) and last.get("msg"):
+            return True, last["msg"] + " (unchanged sources: output of the previous extraction kept)"
         rc, out, err = sh(["go", "build", "-o", exe, "."], cwd=src, env=GOENV)
         if rc != 0:
             return False, "extractor build failed: " + err[-2000:]
         rc, out, err = sh([exe, "-repo", REPO, "-out", LEAN + "/Relay/Extracted", "-anchors", V + "/extract/anchors.json"], env=GOENV, timeout=300)
         if rc != 0:
             return False, "extractor failed: " + (out + err)[-2000:]
+        try:
+            json.dump({"in": key, "out": _dir_hash(outdir), "msg": out.strip()}, open(keyfile, "w"))
+        except Exception:
+            pass
     return True, out.strip()
+
+
+def _dir_hash(d):
+    import hashlib
+    h = hashlib.sha256()
+    for f in sorted(glob.glob(d + "/*.lean")):
+        h.update(os.path.basename(f).encode() + b"\0" + open(f, "rb").read() + b"\0")
+    return h.hexdigest()
+
+
+def _extract_key(src):
+    import hashlib
+    h = hashlib.sha256()
+    files = []
+    for root in ("internal", "pkg", "cmd"):
+        for dp, dn, fn in os.walk(os.path.join(REPO, root)):
+            for f in fn:
+                if f.endswith(".go"):
+                    files.append(os.path.join(dp, f))
+    files += [os.path.join(REPO, "go.mod"), os.path.join(REPO, "go.sum")]
+    files += sorted(glob.glob(src + "/*.go")) + sorted(glob.glob(src + "/*.json")) + [os.path.join(src, "go.mod")]
+    for f in sorted(files):
+        try:
+            h.update(f.encode() + b"\0" + open(f, "rb").read() + b"\0")
+        except OSError:
+            h.update(f.encode() + b"\0<missing>\0")
+    return h.hexdigest()
 
 
 # --------------------------------------------------------------------------- Lean side
